@@ -1020,7 +1020,7 @@ class Normalizer:
             # (A[rows])^T = A^T[:, rows] for a row selection (mask / index vector)
             if x_.op == "getitem" and isinstance(x_.args[1], Term) and x_.args[1].op in ("lt", "le", "gt", "ge", "invert", "bitand", "bitor", "nonzero1", "argsort", "unique", "setdiff1d", "sort") and isinstance(x_.args[0], Term):
                 return self.nf(Term("getitem", Term("T", x_.args[0]), Term("tuple", Term("slice", Term("const", None), Term("const", None), Term("const", None)), x_.args[1])))
-        if op in ("sum", "mean", "amin", "amax", "any", "all", "prod", "count", "average") and len(a) >= 2 and isinstance(a[0], Term) and a[0].op == "T" and len(a[0].args) == 1 and not any(isinstance(z_, tuple) and z_ and z_[0] == "weights" for z_ in a[1:]):
+        if op in ("sum", "mean", "amin", "amax", "any", "all", "prod", "count", "average", "argmin", "argmax") and len(a) >= 2 and isinstance(a[0], Term) and a[0].op == "T" and len(a[0].args) == 1 and not any(isinstance(z_, tuple) and z_ and z_[0] == "weights" for z_ in a[1:]):
             # a reduction along an axis of A^T is the reduction along the other axis of A (matrices)
             axs_ = [z_ for z_ in a[1:] if isinstance(z_, tuple) and len(z_) == 2 and z_[0] == "axis" and isinstance(z_[1], Term) and z_[1].op == "const" and z_[1].args[0] in (0, 1)]
             if len(axs_) == 1:
@@ -1235,6 +1235,8 @@ class Normalizer:
                 if r is not None:
                     return r
             return P_atom(A("getitem", wrap(pb), fi))
+        if op == "store" and len(a) == 3 and isinstance(a[1], Term) and a[1].op == "diagidx" and isinstance(a[2], Term) and a[2].op == "const":
+            return self.nf(Term("fill_diagonal", a[0], a[2]))  # a[np.diag_indices_from(a)] = c
         if op == "store" and _column_fill(t) is not None:
             return self.nf(_column_fill(t))  # a table filled column by column, every column once: the columns side by side
         if op == "stack" and len(a) >= 2 and isinstance(a[0], Term) and a[0].op == "const" and a[0].args[0] == 1 and any(isinstance(b_, Term) and ((b_.op == "stack" and len(b_.args) >= 2 and b_.args[0] == a[0]) or _listed_columns(b_) is not None) for b_ in a[1:]):
@@ -1282,8 +1284,6 @@ class Normalizer:
                 if v2 is not None:
                     return self.nf(Term("where3", idx, v2, base))
             return P_atom(A("store", wrap(self.nf(base)), fi, wrap(self.nf(val))))
-        if op == "store" and len(a) == 3 and isinstance(a[1], Term) and a[1].op == "diagidx" and isinstance(a[2], Term) and a[2].op == "const":
-            return P_atom(A("fill_diagonal", wrap(self.nf(a[0])), self.freeze(a[2])))  # a[np.diag_indices_from(a)] = c
         if op == "where3" and len(a) == 3 and isinstance(a[0], Term) and a[0].op == "store" and len(a[0].args) == 3:
             # where(m, x, c) with the mask m = (all True, then m[idx] = False): x with x[idx] = c
             mb, midx, mval = a[0].args
